@@ -8,7 +8,7 @@ NAME=$1; PROP=$2; TIER=${3:-quick}; shift; shift; shift 2>/dev/null
 SB=/tmp/seedbox/$NAME-$PROP-$$
 rm -rf $SB; mkdir -p $SB/verif/replays $SB/verif/evidence $SB/verif/.work /verif/.work
 rsync -a --exclude .git /repo/ $SB/repo/
-( cd $SB/repo && git apply --unsafe-paths /verif/seeded/$NAME/patch.diff 2>/dev/null || patch -s -p1 < /verif/seeded/$NAME/patch.diff ) || { echo "patch does not apply"; rm -rf $SB; exit 3; }
+( cd $SB/repo && git apply --unsafe-paths ${SEEDROOT:-/verif/seeded}/$NAME/patch.diff 2>/dev/null || patch -s -p1 < ${SEEDROOT:-/verif/seeded}/$NAME/patch.diff ) || { echo "patch does not apply"; rm -rf $SB; exit 3; }
 rsync -a --exclude go.sum /verif/harness $SB/verif/
 sed -i "s#=> /repo#=> $SB/repo#" $SB/verif/harness/go.mod
 cp /verif/known_findings.json $SB/verif/
